@@ -10,11 +10,12 @@ KNOWN = os.path.join(VERIF, 'known_findings.json')
 def evidence_dir():
     """Evidence goes to /verif/evidence only when the analysed tree is /repo itself; runs on
     scratch copies (mutants, seeded changes, the pinned tree) write to a scratch directory."""
+    if os.environ.get('QV_EVIDENCE_DIR'):
+        return os.environ['QV_EVIDENCE_DIR']
     root = os.path.realpath(os.environ.get('QV_ROOT', '/repo'))
     if root == os.path.realpath('/repo'):
         return os.path.join(VERIF, 'evidence')
-    d = os.environ.get('QV_EVIDENCE_DIR') or '/tmp/qv-evidence-scratch'
-    return d
+    return '/tmp/qv-evidence-scratch'
 
 
 def load_known():
